@@ -1,12 +1,14 @@
 """C15 - Multipart limits are exact and enforced with bounded buffering."""
 from __future__ import annotations
 
+import re
+
 from hypothesis import strategies as st
 
 import baize.asgi as basgi
 import baize.wsgi as bwsgi
 from baize.datastructures import UploadFile
-from baize.exceptions import HTTPException, RequestEntityTooLarge
+from baize.exceptions import HTTPException
 from baize.multipart import Data, Epilogue, MultipartDecoder, NeedData
 from baize.multipart_helper import parse_async_stream, parse_stream
 
@@ -17,19 +19,44 @@ from harness.refs import multipart as ref
 LEVEL = "exploration"
 RULES = {
     "spool": "enumerated: uploads below / at / just above / far above UploadFile.spool_max_size x two chunk sizes x sync/async helper with the library's own "
-    "file sink: above the spool size the upload must have left process memory, and the content reads back exactly; non-trivial = above the spool size",
+    "file sink: above the spool size the upload must have left process memory (judged on the spooled file itself, not only on the in_memory accessor), "
+    "and the content reads back exactly; non-trivial = above the spool size",
     "limits": "Hypothesis: forms as in C01 (smaller) x max_form_parts in {n-1, n, n+1} x max_form_memory_size in {T-1, T, T+1, None} "
     "for the exact totals n (parts) and T (bytes of non-file content) x partitions {whole, bytewise, drawn cuts} x sync and async "
     "helper; 413 must be raised exactly when a limit is exceeded; non-trivial = a limit within +-1 of the exact total",
-    "default": "the default limit of 324 parts through Request.form on both interfaces with 323/324/325 parts",
+    "exact": "enumerated: fixed forms that the small random forms rarely reach (multi-byte text in utf-8 and gbk in first / middle / last fields, "
+    "fields of 50-70 KB spanning many chunks next to 100 KB files, 60 parts with repeated names, files only, fields only) x the same "
+    "3 x 4 limit settings x {whole, 1000, 4096, 7919, 65536}-byte chunks x sync/async helper; non-trivial = always (limits sit on the exact totals)",
+    "default": "the default limit of 324 parts through Request.form on both interfaces and through both helpers called without limit arguments, with 323/324/325/326 parts",
+    "nolimit": "enumerated: no memory limit is configured by default - forms whose field data totals 0.6 / 1.1 / 2.4 / 24 MB through both helpers "
+    "(64 MB in the thorough tier) called without limit arguments and through Request.form on both interfaces must parse (every value complete); non-trivial = always",
     "lag": "buffering: one part (file or field) whose content has an early lone CR or LF (or none, or CR...LF mirror cases) and then "
     "64 KiB - 2 MiB without another line break, fed in chunks of 1-64 KiB with boundary lengths 1-70: (a) sink lag of the sync and "
     "async helper, (b) bytes supplied before an over-limit field is rejected, (c) event-level fed-minus-emitted; bound = one chunk + "
-    "len(CRLF--boundary) + 8; non-trivial = an early lone CR/LF is present",
+    "len(CRLF--boundary) + 8; non-trivial = an early lone CR/LF is present.  Drawn cases also vary the filler (dashes, blanks, CR, LF, CRLF, "
+    "proper delimiter prefixes, text lines), put small fields / files before and after the large part, and use chunks of 1-100 bytes",
+    "lag_small": "enumerated: the same three buffering measurements with chunks of 1, 5, 16 and 100 bytes (3 KB parts): the bound is relative to "
+    "the chunk size, so anything that batches or retains a fixed amount (tens to hundreds of bytes) shows only here",
+    "lag_fill": "enumerated: the large part is filled with '-', ' ', TAB, LF, CR, CRLF, CRLF-, CRLF--, text lines instead of one letter (after "
+    "no / CR / LF / letter lead): hold-back rules keyed on what the buffer currently ends with",
+    "lag_padded": "enumerated, known finding: look-alike lead (CRLF / LF / CR / text+CRLF, '--boundary', optionally '-' or a first blank) followed by "
+    "2 000 - 200 000 blanks, tabs or both and then a letter, as file part and as over-limit field, sync / async / event level, chunks of 16 - 65536 "
+    "bytes: sink lag, late 413 and event-level retention are reported under C15:known:padded-lookalike:{sink-lag,late-413,buffer}; content, item "
+    "count and limit verdict are judged as everywhere else",
+    "lag_multi": "enumerated: the large part is not alone: fields and files before and after it; sink lag is summed over all file parts and "
+    "the rejection point of an over-limit form is judged on all field bytes supplied so far (a field that nearly fills the limit, then the large field)",
+    "formlag": "enumerated: sink lag through Request.form on both interfaces (an instance-registering subclass of UploadFile is put in the place "
+    "of the name the request module looks up; what has reached the spooled file is read with tell() whenever the server model is asked "
+    "for the next piece of the body): 300 KB / 1.5 MB uploads in pieces of 1000 / 8192 / 65536 bytes; the chunk of the bound is the larger of the piece and the read size the request object asks for (64 KiB); non-trivial = always",
 }
 ASSUMPTIONS = [
     "T counts the bytes of field (non-file) content as they appear on the wire",
     "the bound on retained bytes is what bounds the re-scan cost; no clock enters an oracle",
+    "known finding (KNOWN_FINDINGS.txt, keys C15:known:padded-lookalike:*): a content line 'line break--boundary' (optionally one more '-') "
+    "that goes on with blanks / tabs only is an unfinished delimiter with transport padding of unbounded length and is held back whole; the class "
+    "is generated (lag_padded, lag) and recognised on the INPUT (look-alike lead and a filler of SP/HTAB only); only its three buffering "
+    "measurements carry the known keys, every other clause keeps its ordinary bucket.  'line break--boundary--' is a complete close "
+    "delimiter whatever follows and therefore never part content",
 ]
 
 
@@ -63,25 +90,18 @@ def run_helper(which, chunks, boundary, charset, **limits):
             if not isinstance(v, str):
                 v.close()
         return "ok", len(items)
-    except RequestEntityTooLarge as exc:
+    except HTTPException as exc:  # the statement asks for "413", whatever class carries it
         return (413 if exc.status_code == 413 else ("other", repr(exc))), None
-    except HTTPException as exc:
-        return ("other", repr(exc)), None
 
 
-def oracle_limits(case) -> Result:
-    r = Result()
-    form = case["form"]
-    body = ref.encode(form)
+def judge_limits(r: Result, form, body, partitions, show=300) -> int:
+    """413 <=> n > max_form_parts or T > max_form_memory_size, for both helpers under every given partition."""
     boundary = form["boundary"].encode("ascii")
     n, t = totals(form)
     runs = 0
     near = False
     parts_opts = [max(n - 1, 0), n, n + 1]
     mem_opts = [max(t - 1, 0), t, t + 1, None]
-    partitions = [("whole", []), ("drawn", sorted(min(c, len(body)) for c in case["cuts"]))]
-    if len(body) <= 400:
-        partitions.append(("bytewise", list(range(1, len(body)))))
     for mp in parts_opts:
         for mm in mem_opts:
             want = 413 if (n > mp or (mm is not None and t > mm)) else "ok"
@@ -97,7 +117,7 @@ def oracle_limits(case) -> Result:
                         r.fail(
                             f"C15:limits:{which}:{edge}:expected-{want}-got-{got if not isinstance(got, tuple) else 'other'}",
                             f"n={n} parts, T={t} field bytes, max_form_parts={mp}, max_form_memory_size={mm}, partition {label} {cuts[:10]!r}: "
-                            f"{which} helper -> {got!r}, expected {want!r}; body {body[:300]!r}",
+                            f"{which} helper -> {got!r}, expected {want!r}; body {body[:show]!r}",
                         )
                     elif got == "ok" and count != n:
                         r.fail(f"C15:limits:{which}:item-count", f"{count} items for {n} parts")
@@ -105,13 +125,101 @@ def oracle_limits(case) -> Result:
                 break
     r.weight = runs
     r.nontrivial = near
+    return runs
+
+
+def oracle_limits(case) -> Result:
+    r = Result()
+    form = case["form"]
+    body = ref.encode(form)
+    n, t = totals(form)
+    partitions = [("whole", []), ("drawn", sorted(min(c, len(body)) for c in case["cuts"]))]
+    if len(body) <= 400:
+        partitions.append(("bytewise", list(range(1, len(body)))))
+    judge_limits(r, form, body, partitions)
     r.label(f"parts={min(n, 6)}", "has-field" if t else "no-field-bytes")
+    return r
+
+
+# ------------------------------------------------------------------------------------------
+# exact limits on forms that the small random forms rarely reach
+
+
+def _p(name, content, filename=None, headers=()):
+    return {"name": name, "filename": filename, "headers": [list(h) for h in headers], "content": content}
+
+
+def exact_form(spec):
+    """Fixed forms, named so that a case stays a few bytes of JSON."""
+    f = {"boundary": "BoUnD", "charset": "utf-8", "preamble": None, "epilogue": None, "padding": b"", "parts": []}
+    if spec == "mb-utf8-first":  # multi-byte text in the first of several fields
+        f["parts"] = [_p("a", "é中文ü".encode("utf-8") * 3), _p("u", b"\x00\xff" * 9, "u.bin"), _p("b", b"plain"), _p("c", b"x")]
+    elif spec == "mb-utf8-last":
+        f["parts"] = [_p("a", b"plain"), _p("u", b"bin", "u.bin"), _p("b", "añb".encode("utf-8")), _p("c", "日本語テキスト".encode("utf-8"))]
+    elif spec == "mb-utf8-every":
+        f["parts"] = [_p("k", ("é%d" % i).encode("utf-8")) for i in range(12)]
+    elif spec == "mb-gbk":
+        f["charset"] = "gbk"
+        f["parts"] = [_p("a", "中文字段".encode("gbk")), _p("b", b"ascii"), _p("u", "文件".encode("gbk"), "u.txt"), _p("c", "尾".encode("gbk"))]
+    elif spec == "mb-latin1":
+        f["charset"] = "latin-1"
+        f["parts"] = [_p("a", b"\xe9\xff\xa0"), _p("b", b"\xfc")]
+    elif spec == "big-fields":  # fields far longer than a chunk, a file in between
+        f["boundary"] = "----WebKitFormBoundary7MA4YWxkTrZu0gW"
+        big1 = b"x" * 50_000
+        big2 = (b"line of text\r\n" * 3000 + b"\r\n------WebKitFormBoundary7MA4YWxkTrZu0g\r\n" + b"y" * 28_000)[:70_001]
+        f["parts"] = [_p("first", big1), _p("up", bytes(range(256)) * 400, "up.bin", [("Content-Type", "application/octet-stream")]), _p("second", big2), _p("t", b"")]
+    elif spec == "big-file-last":  # usual upload layout: text inputs first, the upload last
+        f["parts"] = [_p("title", b"t" * 300), _p("note", b"n\r\n" * 2000), _p("up", b"\r" + b"Z" * 120_000, "z.bin")]
+    elif spec == "many-dup-names":  # 60 parts, three names only
+        f["parts"] = [_p("abc"[i % 3], b"v%d" % i, None if i % 4 else "f%d.bin" % i) for i in range(60)]
+    elif spec == "files-only":
+        f["parts"] = [_p("f", b"data%d" % i, "f%d" % i) for i in range(5)]
+    elif spec == "fields-only-empty":  # T = 0 with several parts
+        f["parts"] = [_p("e%d" % i, b"") for i in range(4)]
+    else:
+        raise core.HarnessError(f"unknown form spec {spec!r}")
+    return f
+
+
+EXACT_SPECS = ["mb-utf8-first", "mb-utf8-last", "mb-utf8-every", "mb-gbk", "mb-latin1", "big-fields", "big-file-last", "many-dup-names", "files-only",
+               "fields-only-empty"]
+
+
+def oracle_exact(case) -> Result:
+    r = Result()
+    form = exact_form(case["spec"])
+    body = ref.encode(form)
+    partitions = []
+    for c in case["chunks"]:
+        partitions.append(("whole", []) if c == 0 else (f"every-{c}", list(range(c, len(body), c))))
+    judge_limits(r, form, body, partitions, show=160)
+    r.nontrivial = True
+    r.label(f"spec={case['spec']}")
     return r
 
 
 def big_form(nparts):
     parts = [{"name": f"f{i}", "filename": None if i % 3 else "u.bin", "headers": [], "content": b"v%d" % i} for i in range(nparts)]
     return {"boundary": "BoUnD", "charset": "utf-8", "preamble": None, "epilogue": None, "padding": b"", "parts": parts}
+
+
+def request_form_items(side, chunks, boundary="BoUnD"):
+    """multi_items() of Request.form on one interface, or the HTTPException it raises."""
+    rq = gw.areq(method="POST", headers=[["Content-Type", f'multipart/form-data; boundary="{boundary}"']], body=chunks)
+    if side == "wsgi":
+        return bwsgi.Request(gw.make_environ(rq)).form.multi_items()
+
+    async def go():
+        script = [{"type": "http.request", "body": c, "more_body": i < len(chunks) - 1} for i, c in enumerate(chunks)]
+        it = iter(script)
+
+        async def receive():
+            return dict(next(it))
+
+        return (await basgi.Request(gw.make_scope(rq), receive).form).multi_items()
+
+    return gw.run_sync(go())
 
 
 def oracle_default(case) -> Result:
@@ -121,32 +229,69 @@ def oracle_default(case) -> Result:
     body = ref.encode(form)
     want = 413 if nparts > 324 else "ok"
     chunks = ref.chunks_from_cuts(body, list(range(case["chunk"], len(body), case["chunk"])))
-    rq = gw.areq(method="POST", headers=[["Content-Type", 'multipart/form-data; boundary="BoUnD"']], body=chunks)
-    for side in ("wsgi", "asgi"):
+    for side in ("wsgi", "asgi", "sync-helper", "async-helper"):
         try:
-            if side == "wsgi":
-                items = bwsgi.Request(gw.make_environ(rq)).form.multi_items()
+            if side == "sync-helper":  # the helpers' own default, no limit argument
+                items = parse_stream(iter(chunks), b"BoUnD", "utf-8", file_factory=UploadFile)
+            elif side == "async-helper":
+
+                async def stream():
+                    for ch in chunks:
+                        yield ch
+
+                items = drive(parse_async_stream(stream(), b"BoUnD", "utf-8", file_factory=UploadFile))
             else:
-
-                async def go():
-                    script = [{"type": "http.request", "body": c, "more_body": i < len(chunks) - 1} for i, c in enumerate(chunks)]
-                    it = iter(script)
-
-                    async def receive():
-                        return dict(next(it))
-
-                    return (await basgi.Request(gw.make_scope(rq), receive).form).multi_items()
-
-                items = gw.run_sync(go())
+                items = request_form_items(side, chunks)
             got = "ok"
             if len(items) != nparts:
                 r.fail(f"C15:default:{side}:item-count", f"{len(items)} items for {nparts} parts")
         except HTTPException as exc:
             got = exc.status_code
         if got != want:
-            r.fail(f"C15:default:{side}:expected-{want}-got-{got}", f"{nparts} parts through {side} Request.form with the default limit (324): {got!r}")
+            r.fail(f"C15:default:{side}:expected-{want}-got-{got}", f"{nparts} parts through {side} ({'Request.form' if side in ('wsgi', 'asgi') else 'called without limit arguments'}) with the default limit (324): {got!r}")
     r.nontrivial = abs(nparts - 324) <= 1
     r.label(f"parts={nparts}")
+    return r
+
+
+def oracle_nolimit(case) -> Result:
+    """Nothing configures a memory limit unless the caller does: field data of any size parses, through the
+    helpers called without limit arguments and through both Request.form."""
+    r = Result()
+    sizes = case["sizes"]
+    parts = [_p(f"t{i}", bytes([97 + i % 26]) * s) for i, s in enumerate(sizes)]
+    parts.insert(1, _p("up", b"u" * 1000, "u.bin"))
+    form = {"boundary": "BoUnD", "charset": "utf-8", "preamble": None, "epilogue": None, "padding": b"", "parts": parts}
+    body = ref.encode(form)
+    c = case["chunk"]
+    chunks = [body[i:i + c] for i in range(0, len(body), c)]
+    ctx = f"field data {sizes!r} = {sum(sizes)} bytes, no limit configured, chunks of {c}"
+    for route in ("sync", "async", "wsgi", "asgi"):
+        try:
+            if route == "sync":
+                items = parse_stream(iter(chunks), b"BoUnD", "utf-8", file_factory=UploadFile)
+            elif route == "async":
+
+                async def stream():
+                    for ch in chunks:
+                        yield ch
+
+                items = drive(parse_async_stream(stream(), b"BoUnD", "utf-8", file_factory=UploadFile))
+            else:
+                items = request_form_items(route, chunks)
+        except HTTPException as exc:
+            r.fail(f"C15:nolimit:{route}:raised-{exc.status_code}", f"{ctx}: {route} -> {exc!r}")
+            continue
+        got = [len(v) if isinstance(v, str) else None for _, v in items]
+        for _, v in items:
+            if not isinstance(v, str):
+                v.close()
+        want = [len(p["content"]) if p["filename"] is None else None for p in parts]
+        if got != want:
+            r.fail(f"C15:nolimit:{route}:items", f"{ctx}: {route} value lengths {got!r}, expected {want!r}")
+    r.weight = 4
+    r.nontrivial = True
+    r.label(f"total={sum(sizes)}")
     return r
 
 
@@ -154,33 +299,103 @@ def oracle_default(case) -> Result:
 # buffering
 
 
-def lag_body(case):
-    boundary = case["boundary"]
-    fill = case["fill"]
+_PADDED_LEAD = re.compile(rb"(?:\r\n|\r|\n)--@B-?[ \t]*\Z")
+
+
+def blank_only(pat: bytes) -> bool:
+    return bool(pat) and all(b in b" \t" for b in pat)
+
+
+def padded_lookalike(case) -> bool:
+    """The input class of the known finding, decided on the INPUT alone: the lead ends in a delimiter look-alike
+    ('line break--boundary', optionally one '-', optionally first blanks) and the filler is SP / HTAB only - an
+    unfinished delimiter with transport padding of unbounded length."""
+    return case["fill"] > 0 and blank_only(case.get("fillpat") or b"A") and _PADDED_LEAD.search(case["lead"]) is not None
+
+
+def lag_content(case, boundary: bytes) -> bytes:
     lead = case["lead"]  # bytes at the start of the content, e.g. b"\r", b"\n", b"ab\rcd", b""
     # "@B" stands for the boundary text: lines that merely start like a delimiter (a nested
     # multipart whose boundary extends the outer one) are ordinary content
-    lead = lead.replace(b"@B", boundary.encode("ascii"))
-    content = lead + (b"A" * fill) + case.get("trail", b"")
+    lookalike = b"@B" in lead
+    padded = padded_lookalike(case)
+    lead = lead.replace(b"@B", boundary)
+    pat = case.get("fillpat") or b"A"
+    needle = b"--" + boundary
+    # behind a look-alike lead only letters or blanks/tabs may follow: dashes would complete a close delimiter, a line
+    # break a delimiter.  Blanks/tabs directly behind 'line break--boundary[-]' are the known finding (padded_lookalike).
+    if lookalike and not blank_only(pat):
+        pat = b"A"
+    fill = case["fill"]
+    body = (pat * (fill // len(pat) + 1))[:fill]
+    if padded:
+        body += b"x"  # the padding must not run into a line break (that would be a real delimiter): a letter ends it
+    content = lead + body + case.get("trail", b"")
+    if not lookalike and needle in content:  # the filler completed the boundary text (all-dash boundaries): not a legal content
+        content = lead + b"A" * fill + case.get("trail", b"")
+    return content
+
+
+def _small(kind, i, size, where):
+    if kind == "field":
+        return _p(f"{where}{i}", bytes([112 + i % 8]) * size)
+    return _p(f"{where}{i}", bytes([80 + i % 8]) * size, f"{where}{i}.bin")
+
+
+def lag_body(case):
+    """-> form, body, (start, end) of the large part's content, its content, content spans of all file parts,
+    content spans of all field parts"""
+    boundary = case["boundary"]
+    content = lag_content(case, boundary.encode("ascii"))
     part = {"name": "big", "filename": "big.bin" if case["kind"] == "file" else None, "headers": [], "content": content}
-    form = {"boundary": boundary, "charset": "utf-8", "preamble": None, "epilogue": None, "padding": b"", "parts": [part]}
+    pre = [_small(k, i, s, "p") for i, (k, s) in enumerate(case.get("pre") or [])]
+    post = [_small(k, i, s, "s") for i, (k, s) in enumerate(case.get("post") or [])]
+    form = {"boundary": boundary, "charset": "utf-8", "preamble": None, "epilogue": None, "padding": b"", "parts": pre + [part] + post}
     body = ref.encode(form)
-    hb = ref.part_header_block(part, "utf-8")
-    cstart = body.index(hb) + len(hb)
-    return form, body, cstart, cstart + len(content), content
+    spans = []
+    at = 0
+    for p in form["parts"]:
+        hb = ref.part_header_block(p, "utf-8")
+        at = body.index(hb, at) + len(hb)
+        spans.append((at, at + len(p["content"])))
+        at += len(p["content"])
+        if body[spans[-1][0]:spans[-1][1]] != p["content"]:
+            raise core.HarnessError("lag_body: content span mismatch")
+    big = spans[len(pre)]
+    file_spans = [s for s, p in zip(spans, form["parts"]) if p["filename"] is not None]
+    field_spans = [s for s, p in zip(spans, form["parts"]) if p["filename"] is None]
+    return form, body, big, content, file_spans, field_spans
+
+
+def covered(spans, upto):
+    return sum(max(0, min(upto, e) - s) for s, e in spans)
 
 
 class Sink:
-    written = 0
-    chunks = None
+    totals: dict = {}
+    chunks: dict = {}
+
+    @classmethod
+    def reset(cls):
+        cls.totals = {}
+        cls.chunks = {}
+
+    @classmethod
+    def written(cls):
+        return sum(cls.totals.values())
 
     def __init__(self, filename, headers):
-        Sink.written = 0
-        Sink.chunks = []
+        self.name = filename
+        Sink.totals[filename] = 0
+        Sink.chunks[filename] = []
+
+    def __len__(self):
+        # a sink may well know its size: an empty one is falsy, and still a file
+        return Sink.totals[self.name]
 
     def write(self, data):
-        Sink.written += len(data)
-        Sink.chunks.append(bytes(data))
+        Sink.totals[self.name] += len(data)
+        Sink.chunks[self.name].append(bytes(data))
 
     async def awrite(self, data):
         self.write(data)
@@ -195,27 +410,45 @@ class Sink:
         pass
 
 
+def lag_ctx(case, boundary):
+    extra = ""
+    if case.get("fillpat") not in (None, b"A"):
+        extra += f" filler={case['fillpat']!r}"
+    if case.get("pre"):
+        extra += f" before={case['pre']!r}"
+    if case.get("post"):
+        extra += f" after={case['post']!r}"
+    return f"kind={case['kind']} lead={case['lead']!r} fill={case['fill']} chunk={case['chunk']} boundary-len={len(boundary)}{extra}"
+
+
 def oracle_lag(case) -> Result:
     r = Result()
-    form, body, cstart, cend, content = lag_body(case)
+    form, body, (cstart, cend), content, file_spans, field_spans = lag_body(case)
     boundary = form["boundary"].encode("ascii")
     chunk = case["chunk"]
     bound = chunk + len(b"\r\n--" + boundary) + 8
-    ctx = f"kind={case['kind']} lead={case['lead']!r} fill={case['fill']} chunk={chunk} boundary-len={len(boundary)}"
+    ctx = lag_ctx(case, boundary)
     pieces = [body[i:i + chunk] for i in range(0, len(body), chunk)]
+    nparts = len(form["parts"])
     runs = 0
+    known = padded_lookalike(case)  # input class of the known finding; only the three buffering measurements change their key
+
+    def key(ordinary, finding):
+        return f"C15:known:padded-lookalike:{finding}" if known else ordinary
 
     if case["kind"] == "file":
-        # (a) sink lag of both helpers: checked every time the helper asks for the next chunk
+        # (a) sink lag of both helpers: checked every time the helper asks for the next chunk; summed over
+        # all file parts (everything of an earlier file part has been written by then)
         for which in ("sync", "async"):
             runs += 1
             worst = [0]
             supplied = [0]
 
             def note():
-                lag = max(0, min(supplied[0], cend) - cstart) - Sink.written
+                lag = covered(file_spans, supplied[0]) - Sink.written()
                 worst[0] = max(worst[0], lag)
 
+            Sink.reset()
             if which == "sync":
 
                 def stream():
@@ -225,7 +458,6 @@ def oracle_lag(case) -> Result:
                         yield p
                     note()
 
-                Sink.written = 0
                 items = parse_stream(stream(), boundary, "utf-8", file_factory=Sink)
             else:
 
@@ -236,15 +468,15 @@ def oracle_lag(case) -> Result:
                         yield p
                     note()
 
-                Sink.written = 0
                 items = drive(parse_async_stream(astream(), boundary, "utf-8", file_factory=Sink))
-            if b"".join(Sink.chunks) != content or len(items) != 1:
-                r.fail(f"C15:lag:{which}:content", f"{ctx}: sink received {Sink.written} bytes, content has {len(content)}")
+            if b"".join(Sink.chunks.get("big.bin", [])) != content or len(items) != nparts:
+                r.fail(f"C15:lag:{which}:content", f"{ctx}: sink received {Sink.totals.get('big.bin')} bytes, content has {len(content)}; {len(items)} items for {nparts} parts")
             if worst[0] > bound:
-                r.fail(f"C15:lag:{which}:sink-lag", f"{ctx}: up to {worst[0]} content bytes were received but not yet written to the file sink (bound {bound})")
+                r.fail(key(f"C15:lag:{which}:sink-lag", "sink-lag"), f"{ctx}: up to {worst[0]} content bytes were received but not yet written to the file sink (bound {bound})")
     else:
-        # (b) early rejection of an over-limit field
+        # (b) early rejection of an over-limit form: judged on all field bytes supplied so far
         limit = case["limit"]
+        total = covered(field_spans, len(body))
         for which in ("sync", "async"):
             runs += 1
             supplied = [0]
@@ -265,18 +497,18 @@ def oracle_lag(case) -> Result:
                 else:
                     drive(parse_async_stream(gen_async(), boundary, "utf-8", file_factory=UploadFile, max_form_memory_size=limit))
                 got = "ok"
-            except RequestEntityTooLarge:
-                got = 413
-            want = 413 if len(content) > limit else "ok"
+            except HTTPException as exc:
+                got = exc.status_code
+            want = 413 if total > limit else "ok"
             if got != want:
                 r.fail(f"C15:lag:{which}:verdict", f"{ctx} limit={limit}: {got}, expected {want}")
             elif got == 413:
-                used = max(0, min(supplied[0], cend) - cstart)
+                used = covered(field_spans, supplied[0])
                 allowed = limit + bound
                 if used > allowed:
                     r.fail(
-                        f"C15:lag:{which}:late-rejection",
-                        f"{ctx} limit={limit}: the 413 came only after {used} content bytes had been supplied (allowed {allowed})",
+                        key(f"C15:lag:{which}:late-rejection", "late-413"),
+                        f"{ctx} limit={limit}: the 413 came only after {used} field bytes had been supplied (allowed {allowed})",
                     )
     # (c) event level
     runs += 1
@@ -284,6 +516,7 @@ def oracle_lag(case) -> Result:
     fed = emitted = 0
     worst = 0
     done = False
+    all_spans = file_spans + field_spans
     for p in pieces:
         dec.receive_data(p)
         fed += len(p)
@@ -296,26 +529,163 @@ def oracle_lag(case) -> Result:
             if isinstance(ev, Epilogue):
                 done = True
                 break
-        content_fed = max(0, min(fed, cend) - cstart)
-        worst = max(worst, content_fed - emitted)
-        if len(dec.buffer) > bound + chunk:
-            r.fail("C15:lag:events:buffer", f"{ctx}: decoder buffer holds {len(dec.buffer)} bytes after draining (bound {bound})")
+        worst = max(worst, covered(all_spans, fed) - emitted)
+        # inside the large part's content the buffer can hold nothing but content (before that, an unfinished
+        # header block of any length may legitimately sit there)
+        if cstart + bound < fed <= cend and len(dec.buffer) > bound + chunk:
+            r.fail(key("C15:lag:events:buffer", "buffer"), f"{ctx}: decoder buffer holds {len(dec.buffer)} bytes after draining (bound {bound})")
             break
     if not done:
         dec.receive_data(None)
     if worst > bound:
-        r.fail("C15:lag:events:retained", f"{ctx}: {worst} content bytes fed but not emitted as Data after draining (bound {bound})")
+        r.fail(key("C15:lag:events:retained", "buffer"), f"{ctx}: {worst} content bytes fed but not emitted as Data after draining (bound {bound})")
     r.weight = runs
     r.nontrivial = b"\r" in case["lead"] or b"\n" in case["lead"]
-    r.label(f"kind={case['kind']}", "early-newline" if r.nontrivial else "no-newline", f"lead={case['lead'][:4]!r}")
+    r.label(f"kind={case['kind']}", "early-newline" if r.nontrivial else "no-newline", f"lead={case['lead'][:4]!r}",
+            f"filler={(case.get('fillpat') or b'A')[:4]!r}", "alone" if nparts == 1 else "with-other-parts",
+            "chunk<=100" if chunk <= 100 else "chunk>=1000", "padded-lookalike" if known else "ordinary-input")
     return r
+
+
+# ------------------------------------------------------------------------------------------
+# buffering through Request.form
+
+
+class _Registering(UploadFile):
+    """The library's own sink; it only remembers its instances, so that what has reached the spooled file
+    can be read from outside while the form is being parsed."""
+
+    __slots__ = ()
+    instances: list = []
+
+    def __init__(self, filename, headers):
+        super().__init__(filename, headers)
+        _Registering.instances.append(self)
+
+
+class _NotInstrumentable(Exception):
+    pass
+
+
+def _reached_files():
+    total = 0
+    for up in _Registering.instances:
+        inner = getattr(up, "file", None)
+        if inner is None or not hasattr(inner, "tell"):
+            raise _NotInstrumentable()
+        pos = inner.tell()  # the helper rewinds a completed upload, so the position says nothing: look at the size
+        inner.seek(0, 2)
+        total += inner.tell()
+        inner.seek(pos)
+    return total
+
+
+class NotingInput:
+    """wsgi.input model that calls note() whenever the application asks for more."""
+
+    def __init__(self, pieces, note):
+        self.pieces = list(pieces)
+        self.note = note
+        self.supplied = 0
+        self.largest_request = 0
+
+    def read(self, size=-1):
+        self.note()
+        if size is not None and size > 0:
+            self.largest_request = max(self.largest_request, size)
+        if not self.pieces:
+            return b""
+        head = self.pieces[0]
+        if size is None or size < 0 or size >= len(head):
+            self.pieces.pop(0)
+        else:
+            self.pieces[0] = head[size:]
+            head = head[:size]
+        self.supplied += len(head)
+        return head
+
+
+def oracle_formlag(case) -> Result:
+    import importlib
+
+    r = Result()
+    side = case["side"]
+    lcase = {"kind": "file", "lead": case["lead"], "fill": case["fill"], "chunk": case["chunk"], "boundary": case["boundary"], "trail": b"",
+             "pre": case.get("pre") or []}
+    form, body, (cstart, cend), content, file_spans, field_spans = lag_body(lcase)
+    boundary = form["boundary"].encode("ascii")
+    chunk = case["chunk"]
+    ctx = f"{side} Request.form, " + lag_ctx(lcase, boundary)
+    pieces = [body[i:i + chunk] for i in range(0, len(body), chunk)]
+    mod = importlib.import_module(f"baize.{side}.requests")
+    r.nontrivial = True
+    r.label(f"side={side}", f"chunk={chunk}")
+    if getattr(mod, "UploadFile", None) is not UploadFile:
+        r.label("not-instrumentable")  # the request module no longer looks the sink up under this name: nothing to judge here
+        return r
+    rq = gw.areq(method="POST", headers=[["Content-Type", f'multipart/form-data; boundary="{form["boundary"]}"']], body=[])
+    worst = [0]
+    del _Registering.instances[:]
+    mod.UploadFile = _Registering
+    try:
+        if side == "wsgi":
+            env = gw.make_environ(rq)
+            inp = NotingInput(pieces, lambda: worst.__setitem__(0, max(worst[0], covered(file_spans, inp.supplied) - _reached_files())))
+            env["wsgi.input"] = inp
+            items = bwsgi.Request(env).form.multi_items()
+            # the request object may regroup what the server delivers into reads of the size it asks for: that is its chunk
+            regroup = inp.largest_request
+        else:
+            supplied = [0]
+            regroup = 65536  # tolerated on this side as well (today every message is passed on as it is)
+
+            async def go():
+                it = iter(enumerate(pieces))
+
+                async def receive():
+                    worst[0] = max(worst[0], covered(file_spans, supplied[0]) - _reached_files())
+                    i, p = next(it)
+                    supplied[0] += len(p)
+                    return {"type": "http.request", "body": p, "more_body": i < len(pieces) - 1}
+
+                return (await basgi.Request(gw.make_scope(rq), receive).form).multi_items()
+
+            items = gw.run_sync(go())
+    except _NotInstrumentable:  # the sink no longer keeps its data in a file object called `file`
+        r.label("not-instrumentable")
+        return r
+    finally:
+        mod.UploadFile = UploadFile
+    ups = []
+    bound = max(chunk, regroup) + len(b"\r\n--" + boundary) + 8
+    try:
+        ups = [v for _, v in items if not isinstance(v, str)]
+        big = [v for k, v in items if k == "big"]
+        if len(items) != len(form["parts"]) or len(big) != 1 or isinstance(big[0], str):
+            r.fail(f"C15:formlag:{side}:items", f"{ctx}: {[(k, type(v).__name__) for k, v in items]!r}")
+        else:
+            big[0].seek(0)
+            if big[0].read() != content:
+                r.fail(f"C15:formlag:{side}:content", f"{ctx}: the upload read back differs from what was sent")
+        if worst[0] > bound:
+            r.fail(f"C15:formlag:{side}:sink-lag",
+                   f"{ctx}: up to {worst[0]} bytes of file content had been delivered by the server but had not reached the upload file when the next piece was asked for (bound {bound})")
+    finally:
+        for up in ups:
+            up.close()
+        del _Registering.instances[:]
+    return r
+
+
+# ------------------------------------------------------------------------------------------
+# the library's own sink
 
 
 def oracle_spool(case) -> Result:
     """The library's own file sink: an upload larger than UploadFile.spool_max_size must not stay in
     process memory (the anchored mechanism 'memory up to the spool size, then disk'), one below it may;
     the content reads back exactly either way."""
-    from harness import gateways as gw
+    import tempfile
 
     r = Result()
     limit = UploadFile.spool_max_size
@@ -358,7 +728,12 @@ def oracle_spool(case) -> Result:
         return r
     up = items[0][1]
     try:
-        if size > limit and up.in_memory:
+        held = up.in_memory
+        inner = getattr(up, "file", None)
+        if isinstance(inner, tempfile.SpooledTemporaryFile):
+            # the spooled file knows for itself; the accessor may have drifted from it
+            held = held or not inner._rolled
+        if size > limit and held:
             r.fail(f"C15:spool:{case['route']}:large-upload-held-in-memory", f"{ctx}: after parsing, the upload is still an in-memory buffer")
         up.seek(0)
         data = up.read()
@@ -371,7 +746,9 @@ def oracle_spool(case) -> Result:
     return r
 
 
-SUBS = {"spool": oracle_spool, "limits": oracle_limits, "default": oracle_default, "lag": oracle_lag, "lag_grid": oracle_lag}
+SUBS = {"spool": oracle_spool, "limits": oracle_limits, "exact": oracle_exact, "default": oracle_default, "nolimit": oracle_nolimit,
+        "lag": oracle_lag, "lag_grid": oracle_lag, "lag_small": oracle_lag, "lag_fill": oracle_lag, "lag_multi": oracle_lag, "lag_padded": oracle_lag,
+        "formlag": oracle_formlag}
 
 
 def limits_case():
@@ -380,6 +757,7 @@ def limits_case():
 
 LEADS = [b"", b"\r", b"\n", b"\r\n", b"ab\rcd", b"ab\ncd", b"\rx\n", b"\nx\r", b"\r\r", b"\n\n", b"--", b"\r\n-", b"\r-", b"\n--",
          b"\r\n--@B-inner\r\n", b"\r\n--@BX", b"x\n--@B.1\n", b"\r\n--@B-", b"\r\n--@Bx--\r\n"]
+FILLERS = [b"-", b" ", b"\t", b"\n", b"\r", b"\r\n", b"\r\n-", b"\r\n--", b"line of text\r\n", b"--", b" \r\n", b"-\n"]
 
 
 def lag_grid():
@@ -394,6 +772,75 @@ def lag_grid():
                 _ = blen
 
 
+def lag_small_grid(quick):
+    leads = [b"", b"\r", b"\n", b"ab\rcd", b"\r\n--@B-inner\r\n", b"\r\n-"]
+    for kind in ("file", "field"):
+        for lead in leads:
+            for b in ("b", "BoundaryBound") if quick else ("b", "BoundaryBound", "x" * 70):
+                for chunk in (1, 5, 16, 100):
+                    for pat in (b"A", b"line\n"):
+                        case = {"kind": kind, "lead": lead, "fill": 3000, "chunk": chunk, "boundary": b, "trail": b"", "fillpat": pat}
+                        if kind == "field":
+                            case["limit"] = 200
+                        yield case
+
+
+def lag_fill_grid(quick):
+    for kind in ("file", "field"):
+        for pat in FILLERS:
+            for lead in (b"", b"\r", b"\n", b"x"):
+                for b in ("b", "BoundaryBound") if quick else ("b", "BoundaryBound", "x" * 70, "-", "--a"):
+                    for chunk in (1024, 65536) if quick else (1000, 1024, 4096, 65536):
+                        case = {"kind": kind, "lead": lead, "fill": 150_000, "chunk": chunk, "boundary": b, "trail": b"", "fillpat": pat}
+                        if kind == "field":
+                            case["limit"] = 1000
+                        yield case
+
+
+PADDED_LEADS = [b"\r\n--@B", b"\n--@B", b"\r--@B", b"\r\n--@B-", b"ab\r\n--@B", b"\r\n--@B \t", b"\n--@B-\t"]
+BLANK_FILLERS = [b" ", b"\t", b" \t", b"\t\t "]
+
+
+def lag_padded_grid(quick):
+    """The input class of the known finding.  What is retained is re-scanned with every chunk, so sizes are kept moderate."""
+    leads = PADDED_LEADS[:5] if quick else PADDED_LEADS
+    for kind in ("file", "field"):
+        for lead in leads:
+            for pat in BLANK_FILLERS[:2] if quick else BLANK_FILLERS:
+                for b in ("b", "BoundaryBound") if quick else ("b", "BoundaryBound", "x" * 70):
+                    for chunk, fill in ((16, 2000), (1024, 40_000), (4096, 100_000), (65536, 200_000)):
+                        case = {"kind": kind, "lead": lead, "fill": fill, "chunk": chunk, "boundary": b, "trail": b"", "fillpat": pat}
+                        if kind == "field":
+                            case["limit"] = 200 if chunk < 100 else 1000
+                        yield case
+
+
+PRES = [[["field", 4990]], [["file", 5000]], [["field", 100], ["file", 3000], ["field", 4890]], [["file", 70_000], ["field", 4990]]]
+POSTS = [[], [["field", 10], ["file", 10]]]
+
+
+def lag_multi_grid(quick):
+    for kind in ("file", "field"):
+        for pre in PRES:
+            for post in POSTS:
+                for lead in (b"\r", b""):
+                    for chunk in (1024, 4096) if quick else (100, 1024, 4096, 65536):
+                        case = {"kind": kind, "lead": lead, "fill": 100_000, "chunk": chunk, "boundary": "BoundaryBound", "trail": b"", "pre": pre, "post": post}
+                        if kind == "field":
+                            case["limit"] = 5000  # the fields in front nearly fill it
+                        yield case
+
+
+def formlag_grid(quick):
+    for side in ("wsgi", "asgi"):
+        for chunk, fill in ((1000, 300_000), (8192, 300_000), (65536, 1_500_000)):
+            for lead in (b"", b"\r"):
+                for pre in ([], [["field", 2000], ["file", 3000]]):
+                    if quick and lead == b"" and pre:
+                        continue
+                    yield {"side": side, "chunk": chunk, "fill": fill, "lead": lead, "boundary": "BoundaryBound", "pre": pre}
+
+
 @st.composite
 def lag_case(draw):
     kind = draw(st.sampled_from(["file", "field"]))
@@ -402,14 +849,28 @@ def lag_case(draw):
     if b"@B" not in lead:
         while ("--" + boundary).encode("latin-1") in lead:
             lead = lead.replace(b"-", b"")
+    small = draw(st.integers(0, 3)) == 0
     case = {
         "kind": kind,
         "lead": lead,
-        "fill": draw(st.sampled_from([65536, 100_000, 300_000, 1_000_000])),
-        "chunk": draw(st.sampled_from([1000, 1024, 4096, 8192, 16384, 65536, 7919])),
+        "fill": draw(st.sampled_from([2000, 5000])) if small else draw(st.sampled_from([65536, 100_000, 300_000, 1_000_000])),
+        "chunk": draw(st.sampled_from([1, 2, 3, 7, 16, 50, 100])) if small else draw(st.sampled_from([1000, 1024, 4096, 8192, 16384, 65536, 7919])),
         "boundary": boundary,
         "trail": draw(st.sampled_from([b"", b"\r", b"\n", b"\r\n", b"-"])),
     }
+    if draw(st.integers(0, 2)) == 0:
+        case["fillpat"] = draw(st.sampled_from(FILLERS))
+    if draw(st.integers(0, 7)) == 0:  # the input class of the known finding
+        case["lead"] = draw(st.sampled_from(PADDED_LEADS))
+        case["fillpat"] = draw(st.sampled_from(BLANK_FILLERS))
+        case["trail"] = draw(st.sampled_from([b"", b"\r", b"\n", b"\r\n", b"-", b" "]))
+    if padded_lookalike(case):
+        # what is held back is scanned again with every chunk: keep fill^2 / chunk small
+        case["fill"] = min(case["fill"], 2000 if case["chunk"] <= 100 else 60_000)
+    small_part = st.tuples(st.sampled_from(["field", "file"]), st.sampled_from([0, 1, 10, 700, 5000])).map(list)
+    if draw(st.integers(0, 2)) == 0:
+        case["pre"] = draw(st.lists(small_part, max_size=3))
+        case["post"] = draw(st.lists(small_part, max_size=2))
     if kind == "field":
         case["limit"] = draw(st.sampled_from([0, 1, 1000, 65536, 2_000_000]))
     return case
@@ -419,11 +880,24 @@ def run(rec, only=None):
     quick = rec.tier == "quick"
     core.drive_cases(rec, "default", [{"parts": n, "chunk": c} for n in (323, 324, 325, 326) for c in (97, 4096)], oracle_default)
     rec.exhaustive["default"] = True
+    nolimit = [{"sizes": [600_000], "chunk": 65536}, {"sizes": [1_100_000], "chunk": 4096}, {"sizes": [300_000] * 8, "chunk": 65536},
+               {"sizes": [24_000_000], "chunk": 65536}]
+    core.drive_cases(rec, "nolimit", nolimit if quick else nolimit + [{"sizes": [64_000_000], "chunk": 1 << 20}], oracle_nolimit, sample=False)
+    rec.exhaustive["nolimit"] = True
     core.drive_cases(rec, "spool", [{"size": z, "chunk": c, "route": w} for z in ("below", "at", "above", "far-above") for c in (65536, 1 << 20) for w in ("sync", "async")], oracle_spool)
     rec.exhaustive["spool"] = True
+    core.drive_cases(rec, "exact", [{"spec": s, "chunks": [0, 1000, 4096] if quick else [0, 1000, 4096, 7919, 65536]} for s in EXACT_SPECS], oracle_exact)
+    rec.exhaustive["exact"] = True
     grid = list(lag_grid())
     core.drive_cases(rec, "lag_grid", grid[::3] if quick else grid, oracle_lag)
     rec.exhaustive["lag_grid"] = not quick
-    core.drive_hypothesis(rec, "limits", limits_case(), oracle_limits, 150 if quick else 4000)
-    core.drive_hypothesis(rec, "lag", lag_case(), oracle_lag, 40 if quick else 1500, seed_offset=1)
+    core.drive_cases(rec, "lag_small", lag_small_grid(quick), oracle_lag)
+    core.drive_cases(rec, "lag_fill", lag_fill_grid(quick), oracle_lag)
+    core.drive_cases(rec, "lag_multi", lag_multi_grid(quick), oracle_lag)
+    core.drive_cases(rec, "lag_padded", lag_padded_grid(quick), oracle_lag)
+    rec.exhaustive["lag_padded"] = True
+    core.drive_cases(rec, "formlag", formlag_grid(quick), oracle_formlag)
+    rec.exhaustive["lag_small"] = rec.exhaustive["lag_fill"] = rec.exhaustive["lag_multi"] = rec.exhaustive["formlag"] = True
+    core.drive_hypothesis(rec, "limits", limits_case(), oracle_limits, 250 if quick else 4000)
+    core.drive_hypothesis(rec, "lag", lag_case(), oracle_lag, 80 if quick else 1500, seed_offset=1)
     rec.exhaustive["limits"] = rec.exhaustive["lag"] = False
